@@ -18,6 +18,7 @@ EXTENDS XlEval
 
 Exc == [t |-> "pyexc"]
 CycCol == 17
+OwnCol == 26      \* the formula under test lives in Z1
 O(v, log) == [v |-> v, log |-> log]
 
 \* truth of one element of an AND/OR argument: "t", "f", "skip" (blank), "open" (text), or an error record
@@ -48,7 +49,9 @@ Junction(isAnd, args, i, log, decided, anyElem, isOpen, ctx) ==
 Outs(a, ctx) ==
     CASE a.k = "call" /\ a.f = "SPY" -> {O(LitValue(a.args[1].txt), <<LitValue(a.args[1].txt).n>>)}
       [] a.k = "call" /\ a.f = "NOSUCHFUNC" -> {O(Exc, <<>>)}
-      [] a.k = "ref" /\ a.col = CycCol /\ a.row = 1 -> {O(Exc, <<>>)}        \* Q1 holds =Q1+1: a circular reference
+      [] a.k = "ref" /\ a.col \in {CycCol, OwnCol} /\ a.row = 1 -> {O(Exc, <<>>)}   \* Q1 holds =Q1+1, Z1 is the formula itself: circular
+      [] a.k = "call" /\ a.f = "SUM" /\ Len(a.args) = 1 /\ a.args[1].k = "range" /\ a.args[1].r1 = 1
+                     /\ a.args[1].c1 <= OwnCol /\ OwnCol <= a.args[1].c2 -> {O(Exc, <<>>)}  \* a range containing the formula's own cell
       [] a.k = "call" /\ a.f = "IF" ->
             UNION { IF c.v = Exc THEN {c}
                     ELSE IF c.v.t = "err" THEN {c}
